@@ -91,22 +91,7 @@ func isAdcSbc(op byte) bool {
 func runCPUSpec() {
 	rep := report.New("cpu-spec", tier, seed)
 	r := prng.New(seed ^ 0x5bec)
-	perOp := 60
-	nProg := 3000
-	if tier == "thorough" {
-		perOp = 2500
-		nProg = 120000
-	}
-	var cases []cpuCase
-	for op := 0; op < 256; op++ {
-		for k := 0; k < perOp; k++ {
-			c := genCPUCase(r.Fork(), op, true)
-			cases = append(cases, c)
-		}
-	}
-	for k := 0; k < nProg; k++ {
-		cases = append(cases, genCPUCase(r.Fork(), -1, true))
-	}
+	cases := cpuCaseSet(r, true)
 	d, err := drv.Start(modelDrv)
 	var replies []string
 	if err == nil {
@@ -159,7 +144,7 @@ func runCPUSpec() {
 	rep.Evaluations = steps
 	rep.Distinct = int64(len(distinct))
 	rep.CountN("cases", int64(len(cases)))
-	rep.Rule = "native-mode states only (E=0): every opcode x boundary-biased registers / operands / pointers as in vh cpu, plus random programs (compared until a step leaves native mode); " +
+	rep.Rule = "native-mode states only (E=0): every opcode x boundary-biased registers / operands / pointers as in vh cpu (incl. the data-directed second pass and the exact-EA cases), plus random programs (compared until a step leaves native mode); " +
 		"both real interpreters, abstracted by the live-copy rule, against the compiled WDC model after every step (registers, flags, stop latch, all written bytes). " +
 		"A difference on ADC/SBC with D=1 is tagged known_class=decimal-adc-sbc (known finding D14)"
 	rep.Emit()
